@@ -139,7 +139,10 @@ def bind(args, how, kw, prefix='a'):
             names.append(label)
             continue
         n = 'v_%s%s' % (prefix, 'abcdefghijklmnopqrstuvwxyz'[i % 26] + ('x' * (i // 26)))
-        kw.setdefault('vars', {})[n] = dec(a)
+        v = dec(a)
+        if h == 'tup' and isinstance(v, list):
+            v = tuple(tuple(x) if isinstance(x, list) else x for x in v)        # the host hands the range over as a tuple (of tuples): a sequence like any other
+        kw.setdefault('vars', {})[n] = v
         names.append(n)
     return names
 
@@ -452,7 +455,7 @@ def criteria_case(draw):
         if variant and variant[0] not in '<>=' and variant.strip():
             cells1 = [(c[:1] + ' ' + c[1:]) if k % 2 else c.replace(' ', '') or c for k, c in enumerate(cells0)]
             pairs.append([[c0[0], variant], cells1])
-    return {'values': values, 'pairs': pairs, 'how': draw(st.sampled_from(['var', 'lit', 'range']))}
+    return {'values': values, 'pairs': pairs, 'how': draw(st.sampled_from(['var', 'lit', 'range', 'tup']))}
 
 
 def check_criteria(case):
